@@ -167,8 +167,13 @@ func NewEmptyConfig() Configuration {
 // If there is no such namespace found in this configuration then provided the namespace specific data encoded
 // within `target` is left unmodified. However, configuration of higher scoped fields will still be attempted.
 func (c Configuration) deserializeConfigInto(target interface{}, namespace string) error {
-	if tree := c.tree.Get(namespace); tree != nil {
-		err := tree.(*toml.Tree).Unmarshal(target)
+	if section := c.tree.Get(namespace); section != nil {
+		tree, ok := section.(*toml.Tree)
+		if !ok {
+			// E.g. `e_some_lint = 7` or `[[e_some_lint]]`: a value that is not a table cannot configure anything.
+			return fmt.Errorf("the [%s] entry must be a TOML table, got %T", namespace, section)
+		}
+		err := tree.Unmarshal(target)
 		if err != nil {
 			return err
 		}
